@@ -233,6 +233,14 @@ class Docs:
             return self.P[h].document
         return self.jobs[t][h].document
 
+    def assign(self, t, h, mapping, alias):
+        """Whole-document assignment through the owner's property setter."""
+        owner = self.P[h] if self.is_project_doc[t] else self.jobs[t][h]
+        if alias:
+            owner.doc = mapping
+        else:
+            owner.document = mapping
+
     def filename(self, t):
         if self.is_project_doc[t]:
             return os.path.join(self.path, model.PDOC_FILE)
@@ -343,7 +351,11 @@ def run_mode_A(ctx, case, stale=False):
         try:
             doc = D.doc(t, h)
             loaded[(t, h)] = True
-            rret = apply_real(doc, op)
+            if op[0] == "reset" and len(op[1]) % 2 == 0:
+                D.assign(t, h, copy.deepcopy(op[1]), alias=len(op[1]) == 2)
+                rret = None
+            else:
+                rret = apply_real(doc, op)
         except Exception as e:  # noqa
             if stale and isinstance(e, FileNotFoundError):
                 # an independent handle whose job directory was re-keyed / removed by another handle may
@@ -453,7 +465,11 @@ def run_buffered(ctx, case, multi_handle):
                     if not ok or (op[0] == "setattr" and not op[1].isidentifier()):
                         continue
                     doc = D.doc(t, h)
-                    rret = apply_real(doc, op)
+                    if op[0] == "reset" and len(op[1]) % 2 == 0:
+                        D.assign(t, h, copy.deepcopy(op[1]), alias=len(op[1]) == 2)
+                        rret = None
+                    else:
+                        rret = apply_real(doc, op)
                     D.model[t] = mcopy
                     if stack:
                         used_in_block.setdefault(t, set()).add(h)
